@@ -1,11 +1,13 @@
-import Ldlm.Proofs.CoreMain
+import Ldlm.Proofs.CoreRestart
 import Ldlm.Proofs.MapOps
 /-!
 C07 — Failed requests are inert; operations on one (name, key) touch nothing else.
 
 Model: M2 (`Ldlm.Core`), the sequential timed server, on any lawful lock-table representation
 (flat or sharded with any hash / shard count).  Statements are about every state satisfying the
-reachability invariant `Inv'` (`Proofs/CoreMain.run_inv`: every reachable state does).
+reachability invariant `Inv'`; every state reachable by any history, restarts included, satisfies
+it (`reachable`, from `Proofs/CoreRestart.run_invS`), so `failed_inert_reachable` has no hypothesis
+but lawfulness of the table and freshness of generated keys.
 
 * `failed_inert`     — a Lock / TryLock / Unlock / Renew / admin-unlock request that answers with an
                        error leaves every lock's size, key list and waiter queue, every lease timer,
@@ -197,5 +199,17 @@ example : (step flatOps cfg0 (run flatOps cfg0 (d1History.take 2))
   decide
 
 example : (run flatOps cfg0 d1History).timers.length = 1 := by decide
+
+/-! ### for every reachable state -/
+
+/-- every state reachable by any history (restarts included) satisfies the invariant -/
+theorem reachable (ho : o.Lawful) (hinj : KeysInjective c) (ops : List Op) : Inv' o c (run o c ops) :=
+  (run_invS ho hinj ops).1
+
+/-- **C07, unconditional form**: after ANY history a request answered with an error changes nothing -/
+theorem failed_inert_reachable (ho : o.Lawful) (hinj : KeysInjective c) (ops : List Op) (op : Op)
+    (hreq : isRequest op = true) (herr : (step o c (run o c ops) op).2.err ≠ none) :
+    ObsEq o (run o c ops) (step o c (run o c ops) op).1 :=
+  failed_inert ho (reachable ho hinj ops) op hreq herr
 
 end Ldlm.Props.C07
